@@ -942,7 +942,7 @@ def real_socket_streams(ctx, pid):
 
             def server(sock=b, frames=frames, mode=mode, wrote=wrote):
                 try:
-                    sock.settimeout(0.25)
+                    sock.settimeout(5)      # (ends at the end of stream: the client shuts its side down when it is done)
                     if mode == "one_segment":
                         sock.sendall(b"".join(wire.sframe(op, pl, fin) for op, pl, fin in frames))
                     else:
